@@ -322,7 +322,15 @@ def auditOne (cat : List ZoneCfg) (serverSize : Nat) (req : Bytes) (udp : Bool) 
   | .bytes b =>
     if !sc.respond then [s!"C03:unexpected-response-{tr}"] else
     match specDecodeMsg b with
-    | none => [s!"C02:undecodable-{tr}"]
+    | none =>
+      -- an undecodable response cannot echo the question either, unless its question section is
+      -- intact octet for octet (the server writes the question first and uncompressed)
+      [s!"C02:undecodable-{tr}"] ++
+      (match sc.question with
+        | some q =>
+          let want := q.qname ++ u16be q.qtype ++ u16be q.qclass
+          if hdr b 4 ≠ 1 ∨ (b.extract 12 (12 + want.length)).toList ≠ want then [s!"C03:question-lost-{tr}"] else []
+        | none => [])
     | some d =>
       let opts := d.ar.filter (fun r => r.ty = 41)
       let c02 :=
